@@ -308,6 +308,9 @@ ChildPlan World::OnSpawn(Kernel& kk, const std::string& cmd, bool console) {
   // output chunks: self-identifying so that every byte is attributable
   std::string all_out;
   int nchunks = 0;
+  rec.deps_kind = s.deps_kind;
+  if (s.deps_kind == 3) rec.reported_deps = hidden;
+  else if (s.deps_kind == 2) rec.reported_deps = rs;
   if (s.deps_kind == 3) {
     std::string o;
     for (auto& h : hidden) o += "Note: including file: " + h + "\n";
